@@ -38,9 +38,16 @@ Guards (why the oracle is not stricter than the library):
    pattern the smallest still-differing tree contains, else the operator classes of
    its top two levels.
 
-Candidate genuine defects this check re-finds on the unchanged tree (they keep firing;
-5 of 6 generated trees are rewritten by ``expr_ga.sanitize`` so that they contain none
-of these patterns and cannot be masked by them):
+Constant folding: 9% of the boolean nodes are ``Gen.folding`` shapes -- and_/or_ over
+plain boolean operands (Boolean column, boolean CASE, boolean function, boolean bind)
+with true()/false()/Python True/False members in any position, single-operand
+and_()/or_(), mostly under NOT -- the paths where a conjunction collapses to the
+AsBoolean wrapper of one operand (counted, required).
+
+Defects this check found on the original tree.  Only the first is still open (5 of 6
+generated trees are rewritten by ``expr_ga.sanitize`` so that they do not contain it
+and cannot be masked by it); the others have been repaired in /repo and their patterns
+are ordinary workload now (selftest/C01/reverse-*.diff re-introduce them):
   concat-operand-arith-ungrouped   ``s.concat(a - b)`` -> ``s || a - b``: on SQLite ``||``
         binds tighter than arithmetic, on Oracle/MSSQL it has the precedence of + -
   asboolean-operand-ungrouped      ``AsBoolean.self_group`` never parenthesises:
@@ -65,7 +72,8 @@ META = {
     "soft_s": {"quick": 70, "thorough": 800},
     "exhaustive": {"quick": False, "thorough": False},
     "require": ["exec_pairs_compared", "rows_compared", "nontrivial_trees", "negation_rewrites_seen", "flattened_seen", "value_rows_non_null",
-                "grammar_pairs_compared", "calibration_trees"],
+                "grammar_pairs_compared", "calibration_trees", "negated_folding_conjunctions_seen",
+                "negated_conjunction_folding_to_plain_boolean_seen"],
     "assumptions": [
         "SQLite treats redundant parentheses as transparent (no affinity change): documented, and relied on by the reference form",
         "transcribed precedence tables of PG/MySQL/MSSQL/Oracle are correct (part B only)",
@@ -381,7 +389,7 @@ def run(ctx):
             gen.max_depth = rng.choice((2, depth, depth)) if depth > 2 else depth
             t = rng.choice(("b", "b", "b", "i", "i", "s", "f"))
             tree = gen.gen(t)
-            if k % 6:  # 5 of 6 trees are kept free of the known-defect patterns
+            if k % 6:  # 5 of 6 trees are kept free of the still-open known-defect patterns
                 tree = G.sanitize(tree)
                 ctx.count("trees_sanitized")
             else:
@@ -400,6 +408,12 @@ def run(ctx):
             if any(n[0] == "not" and G.opname(n[1]) in ("bin", "eq", "ne", "lt", "le", "gt", "ge", "like", "in", "inlit", "isnull", "is", "between", "isdistinct", "isnotdistinct")
                    for n in G.walk(tree)):
                 ctx.count("negation_rewrites_seen")
+            for n in G.walk(tree):
+                if n[0] == "not" and n[1][0] in ("and", "or") and (len(n[1][1]) == 1 or any(c[0] == "const" for c in n[1][1])):
+                    ctx.count("negated_folding_conjunctions_seen")
+                    nonconst = [c for c in n[1][1] if c[0] != "const"]
+                    if len(nonconst) == 1 and G.opname(nonconst[0]) in (None, "case", "func"):
+                        ctx.count("negated_conjunction_folding_to_plain_boolean_seen")
             judge_exec(ctx, rig, tree)
             if k % 3 == 0:
                 judge_grammar(ctx, rig, T, gdialects, tree)
